@@ -8,6 +8,7 @@ package main
 // all its arguments.
 
 import (
+	"strings"
 	"go/token"
 	"go/types"
 
@@ -22,6 +23,17 @@ type slicer struct {
 	copyOnly bool
 	seen     map[sliceKey]bool
 	steps    int
+	// stop: values the slice does not look behind (treated as fresh sources)
+	stop func(v ssa.Value, stack []*ssa.Call) bool
+	// structural (with copyOnly): elements of slices / arrays, append and (un)marshalling
+	// are moves of (part of) the value too
+	structural bool
+	// wholeOnly: the identity of a struct value is what was stored into it as a whole;
+	// stores into single fields are followed only when that field is asked for
+	wholeOnly bool
+	// unknown: the slice ran into something it does not follow (captured variable, depth or
+	// step bound) - a negative answer is then not conclusive
+	unknown bool
 }
 
 type sliceKey struct {
@@ -37,11 +49,19 @@ func (cx *Ctx) newSlicer(pred func(v ssa.Value, stack []*ssa.Call) bool, copyOnl
 // derives: v (or, when field >= 0, field #field of the struct value v) depends on a
 // value satisfying pred. stack holds the calls entered so far (innermost last).
 func (s *slicer) derives(v ssa.Value, stack []*ssa.Call, field int) bool {
-	if v == nil || len(stack) > 6 {
+	if v == nil {
+		return false
+	}
+	if len(stack) > 6 {
+		s.unknown = true
 		return false
 	}
 	s.steps++
 	if s.steps > 20000 {
+		s.unknown = true
+		return false
+	}
+	if s.stop != nil && s.stop(v, stack) {
 		return false
 	}
 	var top *ssa.Call
@@ -93,7 +113,10 @@ func (s *slicer) derives(v ssa.Value, stack []*ssa.Call, field int) bool {
 			}
 		}
 		return true
-	case *ssa.Const, *ssa.Global, *ssa.Function, *ssa.Builtin, *ssa.FreeVar:
+	case *ssa.FreeVar:
+		s.unknown = true
+		return false
+	case *ssa.Const, *ssa.Global, *ssa.Function, *ssa.Builtin:
 		return false
 	case *ssa.UnOp:
 		if x.Op != token.MUL {
@@ -106,21 +129,21 @@ func (s *slicer) derives(v ssa.Value, stack []*ssa.Call, field int) bool {
 		case *ssa.FieldAddr:
 			if base, ok := a.X.(*ssa.Alloc); ok {
 				if _, isStruct := base.Type().(*types.Pointer).Elem().Underlying().(*types.Struct); isStruct {
-					return s.fromAlloc(base, stack, a.Field)
+					return s.fromAlloc(base, stack, a.Field, x)
 				}
 			}
 			return s.derives(a.X, stack, -1)
 		case *ssa.Alloc:
-			return s.fromAlloc(a, stack, field)
+			return s.fromAlloc(a, stack, field, x)
 		case *ssa.IndexAddr:
-			if s.copyOnly {
+			if s.copyOnly && !s.structural {
 				return false
 			}
 			return s.derives(a.X, stack, -1)
 		}
 		return s.derives(x.X, stack, field)
 	case *ssa.Alloc:
-		return s.fromAlloc(x, stack, field)
+		return s.fromAlloc(x, stack, field, nil)
 	case *ssa.Field:
 		return s.derives(x.X, stack, x.Field)
 	case *ssa.Extract:
@@ -165,18 +188,33 @@ func (s *slicer) derives(v ssa.Value, stack []*ssa.Call, field int) bool {
 }
 
 // fromAlloc: what was stored into the local (or, with field >= 0, into that field of it).
-func (s *slicer) fromAlloc(a *ssa.Alloc, stack []*ssa.Call, field int) bool {
+func (s *slicer) fromAlloc(a *ssa.Alloc, stack []*ssa.Call, field int, at ssa.Instruction) bool {
 	if a.Referrers() == nil {
 		return false
 	}
+	// flow-sensitive for whole-value stores: a load sees only the stores that reach it
+	// (pool = get(); ...; pool, err = update(pool); ...; use(pool))
+	var whole []*ssa.Store
+	for _, r := range *a.Referrers() {
+		if y, ok := r.(*ssa.Store); ok && y.Addr == a {
+			whole = append(whole, y)
+		}
+	}
+	if at != nil && len(whole) > 1 {
+		whole, _ = reachingStores(whole, nil, at)
+	}
+	for _, y := range whole {
+		if s.derives(y.Val, stack, field) {
+			return true
+		}
+	}
 	for _, r := range *a.Referrers() {
 		switch y := r.(type) {
-		case *ssa.Store:
-			if y.Addr == a && s.derives(y.Val, stack, field) {
-				return true
-			}
 		case *ssa.FieldAddr:
 			if field >= 0 && y.Field != field {
+				continue
+			}
+			if field < 0 && s.wholeOnly && len(whole) > 0 {
 				continue
 			}
 			if y.Referrers() == nil {
@@ -232,6 +270,12 @@ func (s *slicer) bufferWriters(buf ssa.Value, stack []*ssa.Call) bool {
 // fromCall: result #res of the call. An irismod callee is entered; any other call
 // depends on all its arguments.
 func (s *slicer) fromCall(c *ssa.Call, res int, stack []*ssa.Call, field int) bool {
+	if s.stop != nil && s.stop(c, stack) {
+		return false
+	}
+	if s.pred(c, stack) {
+		return true
+	}
 	g := c.Common().StaticCallee()
 	if g != nil && g.Blocks != nil && isIrismodFunc(g) && !c.Common().IsInvoke() {
 		for _, on := range stack {
@@ -248,6 +292,18 @@ func (s *slicer) fromCall(c *ssa.Call, res int, stack []*ssa.Call, field int) bo
 		return false
 	}
 	if s.copyOnly {
+		if !s.structural {
+			return false
+		}
+		_, nm := calleeName(c.Common())
+		if !(strings.Contains(nm, "Marshal") || nm == "append") {
+			return false
+		}
+		for _, a := range c.Common().Args {
+			if s.derives(a, stack, -1) {
+				return true
+			}
+		}
 		return false
 	}
 	cc := c.Common()
